@@ -128,6 +128,28 @@ func setField(p interface{}, name string, v interface{}) bool {
 	return true
 }
 
+// smpp5Operations: SMPP v5 section 4.7.5 (command_id values) with, per operation, the number of mandatory
+// parameters of its syntax table (sections 4.1-4.6) — each is one octet when empty / zero (an empty C-octet string
+// is its NUL; number_of_dests, no_unsuccess and sm_length are 0).  Written from the specification.
+var smpp5Operations = []struct {
+	id     uint32
+	name   string
+	params int
+}{
+	{0x00000001, "bind_receiver", 7}, {0x00000002, "bind_transmitter", 7}, {0x00000003, "query_sm", 4},
+	{0x00000004, "submit_sm", 17}, {0x00000005, "deliver_sm", 17}, {0x00000006, "unbind", 0},
+	{0x00000007, "replace_sm", 9}, {0x00000008, "cancel_sm", 8}, {0x00000009, "bind_transceiver", 7},
+	{0x0000000B, "outbind", 2}, {0x00000015, "enquire_link", 0}, {0x00000021, "submit_multi", 15},
+	{0x00000102, "alert_notification", 6}, {0x00000103, "data_sm", 10}, {0x00000111, "query_broadcast_sm", 4},
+	{0x00000112, "broadcast_sm", 11}, {0x00000113, "cancel_broadcast_sm", 5},
+	{0x80000000, "generic_nack", 0}, {0x80000001, "bind_receiver_resp", 1}, {0x80000002, "bind_transmitter_resp", 1},
+	{0x80000003, "query_sm_resp", 4}, {0x80000004, "submit_sm_resp", 1}, {0x80000005, "deliver_sm_resp", 1},
+	{0x80000006, "unbind_resp", 0}, {0x80000007, "replace_sm_resp", 0}, {0x80000008, "cancel_sm_resp", 0},
+	{0x80000009, "bind_transceiver_resp", 1}, {0x80000015, "enquire_link_resp", 0}, {0x80000021, "submit_multi_resp", 2},
+	{0x80000103, "data_sm_resp", 1}, {0x80000111, "query_broadcast_sm_resp", 1}, {0x80000112, "broadcast_sm_resp", 1},
+	{0x80000113, "cancel_broadcast_sm_resp", 0},
+}
+
 func corrC02(r *Run) {
 	r.Import("Model.PduRun")
 	r.Import("Spec.Smpp5")
@@ -136,7 +158,7 @@ func corrC02(r *Run) {
 	r.Rule = "(1) 21 PDUs assigned by Go field name and compared octet for octet with frames laid out parameter by parameter from the cited SMPP v5 tables; " +
 		"(2) generated values of all 33 types in the representable domain: Marshal's frame compared inside coqc with the specification encoder (Spec/Smpp5.v) applied to the same value; " +
 		"(3) specification-order frames with the TLV section permuted and destination entries interleaved, decoded and compared; " +
-		"(4) values that cannot be expressed (NUL in any C-octet string, >255 destinations / records, oversize TLV / UDH element / UDH+message / message): Marshal must refuse; " +
+		"(5) a minimal frame of each of the 33 SMPP v5 operations (own literal list) through ReadPDU; (4) values that cannot be expressed (NUL in any C-octet string, >255 destinations / records, oversize TLV / UDH element / UDH+message / message): Marshal must refuse; " +
 		"non-trivial = distinct (type, value) with a body"
 	ts := pduTypes()
 	// (1) goldens by name
@@ -301,6 +323,98 @@ func corrC02(r *Run) {
 				fmt.Sprintf("beq_ofvals (unmarshal %s %s) (Ok %s)", layoutRef(0x21), coqHex(frame), coqValue(o.PDU)))
 		}
 	}
+	// (3b) specification frames Marshal never produces: sm_length 141..255, TLVs with a zero-length value, duplicated TLVs
+	for i := 0; i < r.N(60, 1000); i++ {
+		id := uint32(r.Rng.Pick([]int{4, 5}))
+		udhi := r.Rng.Intn(3) == 0
+		var udh []byte
+		want := pdu.ShortMessage{DefaultMessageID: r.Rng.Byte(), DataCoding: coding.DataCoding(r.Rng.Pick([]int{0, 4, 8, 0xF5}))}
+		if udhi {
+			want.UDHeader = pdu.UserDataHeader{}
+			var ies []byte
+			for k, idn := 0, 0; k < 1+r.Rng.Intn(3); k++ {
+				idn += 1 + r.Rng.Intn(40)
+				v := r.Rng.Bytes(r.Rng.Pick([]int{0, 1, 3, 4, 30}))
+				want.UDHeader[byte(idn)] = v
+				ies = append(append(ies, byte(idn), byte(len(v))), v...)
+			}
+			udh = append([]byte{byte(len(ies))}, ies...)
+		}
+		ml := r.Rng.Pick([]int{141, 142, 200, 254, 255, 140, 0})
+		if ml+len(udh) > 255 {
+			ml = 255 - len(udh)
+		}
+		want.Message = r.Rng.Bytes(ml)
+		esm := byte(0)
+		if udhi {
+			esm = 0x40
+		}
+		sb := (&specBuf{}).cstr("").addr(1, 1, "7").addr(1, 1, "8").i1(esm).i1(0).i1(0).cstr("").cstr("").i1(0).i1(0).
+			i1(byte(want.DataCoding)).i1(want.DefaultMessageID).i1(byte(len(udh) + ml)).raw(udh).raw(want.Message)
+		wantTags := pdu.Tags{}
+		for k := 0; k < r.Rng.Intn(5); k++ {
+			tag := genTag(r.Rng)
+			v := r.Rng.Bytes(r.Rng.Pick([]int{0, 0, 1, 2, 9}))
+			sb.tlv(tag, v)
+			wantTags[tag] = v // a repeated tag: the last value counts
+		}
+		frame := specFrame(id, uint32(1+i), sb.b)
+		r.SetReplay(replayStream(frame, []int{len(frame)}))
+		o := readOnce(&chunkReader{data: frame, sched: []int{len(frame)}})
+		r.Count(fmt.Sprintf("%x", frame), true, "spec-only-frames")
+		in := fmt.Sprintf("readpdu %x", frame)
+		if o.Kind != "ok" {
+			r.Fail("decode/spec-only", "ReadPDU rejects a specification frame (sm_length up to 255, zero-length TLVs)", in, fmt.Sprintf("%s err=%v", o.Kind, o.Err), "decodes")
+			continue
+		}
+		v := reflect.ValueOf(o.PDU).Elem()
+		var gotMsg pdu.ShortMessage
+		var gotTags pdu.Tags
+		for j := 0; j < v.NumField(); j++ { // by type, not by Go field name
+			switch x := v.Field(j).Interface().(type) {
+			case pdu.ShortMessage:
+				gotMsg = x
+			case pdu.Tags:
+				gotTags = x
+			}
+		}
+		if coqField(reflect.ValueOf(gotMsg)) != coqField(reflect.ValueOf(want)) || coqKVs16(gotTags) != coqKVs16(wantTags) {
+			r.Fail("decode/spec-only", "a specification frame decodes to other values", in,
+				coqField(reflect.ValueOf(gotMsg))+" "+coqKVs16(gotTags), coqField(reflect.ValueOf(want))+" "+coqKVs16(wantTags))
+		}
+		if i%2 == 0 {
+			r.Case("unmarshal (sm_length up to 255, zero-length TLVs) "+shortHex(frame),
+				fmt.Sprintf("beq_ofvals (unmarshal %s %s) (Ok %s)", layoutRef(id), coqHex(frame), coqValue(o.PDU)))
+		}
+	}
+	// (5) registry completeness: a minimal frame (every mandatory parameter empty / zero) of each of the 33 operations,
+	// from a list written from SMPP v5 section 4.7.5 and the syntax tables — not from pdu.VerifTypes
+	specOps := map[uint32]bool{}
+	for _, op := range smpp5Operations {
+		specOps[op.id] = true
+		frame := specFrame(op.id, 77, make([]byte, op.params))
+		r.SetReplay(replayStream(frame, []int{len(frame)}))
+		o := readOnce(&chunkReader{data: frame, sched: []int{len(frame)}})
+		r.Count("registry/"+op.name, true, "registry")
+		in := fmt.Sprintf("readpdu %x (minimal %s)", frame, op.name)
+		switch {
+		case o.Kind != "ok":
+			r.Fail("registry/"+op.name, "ReadPDU does not accept a minimal frame of an SMPP v5 operation", in, fmt.Sprintf("%s err=%v", o.Kind, o.Err), "a PDU of that operation")
+		case uint32(reflect.ValueOf(o.PDU).Elem().Field(0).Interface().(pdu.Header).CommandID) != op.id || o.Consumed != len(frame):
+			r.Fail("registry/"+op.name, "a minimal frame of an SMPP v5 operation decodes to another command_id / length", in,
+				fmt.Sprintf("%T consumed=%d", o.PDU, o.Consumed), fmt.Sprintf("command_id %#x consumed=%d", op.id, len(frame)))
+		default:
+			r.Case("registry: minimal "+op.name, fmt.Sprintf("beq_read (run_read %s []) %s", coqHex(frame), o.term()))
+		}
+	}
+	for _, t := range ts {
+		if !specOps[t.ID] {
+			frame := specFrame(t.ID, 77, nil)
+			r.SetReplay(replayStream(frame, []int{len(frame)}))
+			r.Fail(fmt.Sprintf("registry/unspecified-id/%#x", t.ID), "a command_id that SMPP v5 does not define is registered", fmt.Sprintf("readpdu %x", frame),
+				t.Name, "only the 33 operations of section 4.7.5")
+		}
+	}
 	// (4) inexpressible values must be refused
 	type bad struct {
 		what string
@@ -325,6 +439,12 @@ func corrC02(r *Run) {
 			Message: pdu.ShortMessage{UDHeader: pdu.UserDataHeader{1: long(120), 2: long(100)}, Message: long(32)}}},
 		{"udh+message-wrap-to-small", &pdu.SubmitSM{Header: pdu.Header{Sequence: 1}, ESMClass: pdu.ESMClass{UDHIndicator: true},
 			Message: pdu.ShortMessage{UDHeader: pdu.UserDataHeader{1: long(126), 2: long(125)}, Message: long(5)}}},
+		{"esm_class-mode-4", &pdu.SubmitSM{Header: pdu.Header{Sequence: 1}, ESMClass: pdu.ESMClass{MessageMode: 4}}},
+		{"esm_class-type-0x1f", &pdu.DeliverSM{Header: pdu.Header{Sequence: 1}, ESMClass: pdu.ESMClass{MessageMode: 1, MessageType: 0x1F}}},
+		{"esm_class-mode-0xff", &pdu.DataSM{Header: pdu.Header{Sequence: 1}, ESMClass: pdu.ESMClass{MessageMode: 0xFF, UDHIndicator: true}}},
+		{"registered_delivery-receipt-7", &pdu.SubmitSM{Header: pdu.Header{Sequence: 1}, RegisteredDelivery: pdu.RegisteredDelivery{MCDeliveryReceipt: 7}}},
+		{"registered_delivery-ack-4", &pdu.SubmitMulti{Header: pdu.Header{Sequence: 1}, RegisteredDelivery: pdu.RegisteredDelivery{SMEOriginatedAcknowledgment: 4}}},
+		{"registered_delivery-reserved-9", &pdu.ReplaceSM{Header: pdu.Header{Sequence: 1}, RegisteredDelivery: pdu.RegisteredDelivery{MCDeliveryReceipt: 1, Reserved: 9}}},
 		{"message-141", &pdu.SubmitSM{Header: pdu.Header{Sequence: 1}, Message: pdu.ShortMessage{Message: long(141)}}},
 	}
 	// boundary combinations, with the expected verdict computed from the field widths of the specification
